@@ -1,2 +1,410 @@
-def check_axis(model, R, P, scope):
-    pass
+"""AXIS typestate (C01.AXIS / C05.AXIS): a dim / axis argument is RAW (None | int | tuple, possibly negative) until it is
+normalised on the path; RAW may be handed to NumPy APIs that normalise themselves and may subscript a full-rank shape tuple
+(Python's negative indexing agrees), but must not be order-compared with another dim, compared / tested for membership against
+non-negative positions, used in arithmetic that builds an index / slice bound / length, used as a slice bound, special-cased by a
+negative literal, or (for the documented tuple / None kinds) used as a subscript.
+
+Flow-sensitive walk over the statements of each function with dim-like parameters; kernels inherit the state of the arguments
+at their call sites in the wrappers (a wrapper that normalises before calling makes the kernel parameter NORM).
+"""
+import ast
+from .core import norm, dotted, names_in, body_walk
+from .report import Incomplete
+
+DIM_PARAMS = {'axis', 'dim', 'dimension', 'source', 'destination', 'axis0', 'axis1', 'dim0', 'dim1', 'start_dim', 'end_dim'}
+RAW, NORM = 'RAW', 'NORM'
+SCOPE_MODULES = ('synapgrad.functional', 'synapgrad.cpu_ops', 'synapgrad.nn.functional')
+
+
+def _kinds_from_annotation(arg):
+    if arg.annotation is None:
+        return {'int'}
+    a = norm(arg.annotation).lower()
+    k = set()
+    if 'int' in a:
+        k.add('int')
+    if 'tuple' in a or 'list' in a:
+        k.add('tuple')
+    if 'none' in a:
+        k.add('none')
+    return k or {'int'}
+
+
+class Walker:
+    def __init__(self, f, init_state, report):
+        self.f = f
+        self.state = dict(init_state)      # name -> RAW | NORM
+        self.kinds = {}                    # name -> set of kinds
+        self.report = report               # callable(kind, node, name, why)
+        self.call_args = []                # (call node, callee dotted text, [(param index / kw, state or None)])
+        self.uses = 0
+
+    # ------------------------------------------------------------ helpers
+    def is_dim(self, e):
+        return isinstance(e, ast.Name) and e.id in self.state
+
+    def raw(self, e):
+        return self.is_dim(e) and self.state[e.id] == RAW
+
+    def mentions_rank(self, e):
+        t = norm(e)
+        return 'ndim' in t or 'len(' in t or '.shape' in t
+
+    def normalising_value(self, name, v):
+        """value expression that yields the normalised version of dim `name` (or of a RAW list)"""
+        if isinstance(v, ast.IfExp) and isinstance(v.test, ast.Compare) and len(v.test.ops) == 1 and isinstance(v.test.ops[0], ast.Lt) \
+                and norm(v.test.comparators[0]) == '0' and norm(v.test.left) == name:
+            b, o = v.body, v.orelse
+            return isinstance(b, ast.BinOp) and isinstance(b.op, ast.Add) and name in names_in(b) and self.mentions_rank(b) and norm(o) == name
+        if isinstance(v, ast.BinOp) and isinstance(v.op, ast.Mod) and norm(v.left) == name and self.mentions_rank(v.right):
+            return True
+        return False
+
+    def elementwise_normalising(self, v):
+        """[ax + n if ax < 0 else ax for ax in <dimlist>] / [ax % n for ax in <dimlist>] / tuple(...) of those"""
+        if isinstance(v, ast.Call) and dotted(v.func) in ('tuple', 'list') and len(v.args) == 1:
+            v = v.args[0]
+        if isinstance(v, (ast.ListComp, ast.GeneratorExp)) and len(v.generators) == 1 and isinstance(v.generators[0].target, ast.Name):
+            g = v.generators[0]
+            ev = g.target.id
+            if self.is_dim(g.iter) or (isinstance(g.iter, ast.Name)):
+                saved = dict(self.state)
+                self.state[ev] = RAW
+                ok = self.normalising_value(ev, v.elt)
+                self.state = saved
+                if ok and not g.ifs:
+                    return g.iter
+        return None
+
+    # ------------------------------------------------------------ statements
+    def block(self, stmts):
+        for s in stmts:
+            if self.stmt(s):
+                return True     # terminated
+        return False
+
+    def stmt(self, s):
+        if isinstance(s, ast.If):
+            # normalising if:  if a < 0: a += n  /  a = a + n  /  a = n + a
+            t = s.test
+            if isinstance(t, ast.Compare) and len(t.ops) == 1 and isinstance(t.ops[0], ast.Lt) and norm(t.comparators[0]) == '0' and self.is_dim(t.left) \
+                    and len(s.body) == 1 and not s.orelse:
+                b = s.body[0]
+                name = t.left.id
+                ok = False
+                if isinstance(b, ast.AugAssign) and isinstance(b.op, ast.Add) and norm(b.target) == name and self.mentions_rank(b.value):
+                    ok = True
+                if isinstance(b, ast.Assign) and norm(b.targets[0]) == name and isinstance(b.value, ast.BinOp) and isinstance(b.value.op, ast.Add) \
+                        and name in names_in(b.value) and self.mentions_rank(b.value):
+                    ok = True
+                if ok:
+                    self.state[name] = NORM
+                    return False
+            self.expr(s.test)
+            st0, k0 = dict(self.state), {k: set(v) for k, v in self.kinds.items()}
+            self.refine(s.test, True)
+            t_term = self.block(s.body)
+            st_t, k_t = self.state, self.kinds
+            self.state, self.kinds = dict(st0), {k: set(v) for k, v in k0.items()}
+            self.refine(s.test, False)
+            f_term = self.block(s.orelse)
+            st_f, k_f = self.state, self.kinds
+            if t_term and f_term:
+                return True
+            if t_term:
+                self.state, self.kinds = st_f, k_f
+            elif f_term:
+                self.state, self.kinds = st_t, k_t
+            else:
+                self.state = {n: (RAW if RAW in (st_t.get(n, NORM), st_f.get(n, NORM)) else NORM) for n in set(st_t) | set(st_f)}
+                self.kinds = {n: k_t.get(n, set()) | k_f.get(n, set()) for n in set(k_t) | set(k_f)}
+            return False
+        if isinstance(s, (ast.Return, ast.Raise)):
+            if getattr(s, 'value', None) is not None:
+                self.expr(s.value)
+            if isinstance(s, ast.Raise) and s.exc is not None:
+                pass
+            return True
+        if isinstance(s, ast.Assign):
+            self.assign(s)
+            return False
+        if isinstance(s, ast.AugAssign):
+            self.expr(s.value)
+            if self.is_dim(s.target) and isinstance(s.op, ast.Mod) and self.mentions_rank(s.value):
+                self.state[s.target.id] = NORM
+            return False
+        if isinstance(s, (ast.For, ast.While)):
+            if isinstance(s, ast.For):
+                self.expr(s.iter)
+                if self.is_dim(s.iter) and isinstance(s.target, ast.Name):
+                    self.state[s.target.id] = self.state[s.iter.id]
+                    self.kinds[s.target.id] = {'int'}
+            else:
+                self.expr(s.test)
+            self.block(s.body)
+            self.block(s.orelse)
+            return False
+        if isinstance(s, (ast.With,)):
+            for it in s.items:
+                self.expr(it.context_expr)
+            return self.block(s.body)
+        if isinstance(s, ast.Try):
+            self.block(s.body)
+            for h in s.handlers:
+                self.block(h.body)
+            self.block(s.finalbody)
+            return False
+        if isinstance(s, ast.Expr):
+            self.expr(s.value)
+            return False
+        if isinstance(s, (ast.FunctionDef, ast.ClassDef, ast.Pass, ast.Import, ast.ImportFrom, ast.Global, ast.Nonlocal, ast.Assert, ast.Delete, ast.Break, ast.Continue)):
+            return False
+        return False
+
+    def assign(self, s):
+        v = s.value
+        t = s.targets[0]
+        if isinstance(t, ast.Name):
+            name = t.id
+            src = self.elementwise_normalising(v)
+            if src is not None and (self.is_dim(src)):
+                self.expr(v.args[0].generators[0].iter if isinstance(v, ast.Call) else v.generators[0].iter)
+                self.state[name] = NORM
+                self.kinds[name] = {'tuple'}
+                return
+            for dn in list(self.state):
+                if self.normalising_value(dn, v):
+                    self.state[name] = NORM
+                    self.kinds[name] = {'int'}
+                    return
+            self.expr(v)
+            if isinstance(v, ast.Call) and dotted(v.func) == 'range':
+                self.state[name] = NORM
+                self.kinds[name] = {'tuple'}
+                return
+            if isinstance(v, (ast.List, ast.Tuple)) and len(v.elts) == 1 and self.is_dim(v.elts[0]):
+                self.state[name] = self.state[v.elts[0].id]
+                self.kinds[name] = {'tuple'}
+                return
+            if isinstance(v, ast.Call) and dotted(v.func) in ('tuple', 'list') and v.args and isinstance(v.args[0], (ast.GeneratorExp, ast.ListComp)):
+                g = v.args[0].generators[0]
+                if self.is_dim(g.iter) and norm(v.args[0].elt) == norm(g.target):
+                    self.state[name] = self.state[g.iter.id]
+                    self.kinds[name] = {'tuple'}
+                    return
+            if self.is_dim(v):
+                self.state[name] = self.state[v.id]
+                self.kinds[name] = set(self.kinds.get(v.id, {'int'}))
+                return
+            if name in self.state:
+                # rebound to something that is not a recognised dim expression: stop tracking
+                del self.state[name]
+            return
+        self.expr(v)
+        for tt in s.targets:
+            self.expr(tt)
+
+    # ------------------------------------------------------------ refinement
+    def refine(self, test, polarity):
+        if isinstance(test, ast.UnaryOp) and isinstance(test.op, ast.Not):
+            return self.refine(test.operand, not polarity)
+        if isinstance(test, ast.BoolOp):
+            if (isinstance(test.op, ast.And) and polarity) or (isinstance(test.op, ast.Or) and not polarity):
+                for v in test.values:
+                    self.refine(v, polarity)
+            return
+        if isinstance(test, ast.Call) and dotted(test.func) == 'isinstance' and len(test.args) == 2 and self.is_dim(test.args[0]):
+            n = test.args[0].id
+            tt = norm(test.args[1])
+            ks = set(self.kinds.get(n, {'int'}))
+            if 'int' in tt and 'tuple' not in tt and 'list' not in tt:
+                self.kinds[n] = {'int'} if polarity else (ks - {'int'} or ks)
+            elif 'tuple' in tt or 'list' in tt:
+                self.kinds[n] = {'tuple'} if polarity else (ks - {'tuple'} or ks)
+            return
+        if isinstance(test, ast.Compare) and len(test.ops) == 1 and isinstance(test.ops[0], (ast.Is, ast.IsNot)) and self.is_dim(test.left) and norm(test.comparators[0]) == 'None':
+            n = test.left.id
+            is_none = isinstance(test.ops[0], ast.Is) == polarity
+            ks = set(self.kinds.get(n, {'int'}))
+            self.kinds[n] = {'none'} if is_none else (ks - {'none'} or ks)
+
+    # ------------------------------------------------------------ expressions (sensitive uses)
+    def expr(self, e, in_index=False):
+        if e is None:
+            return
+        if isinstance(e, ast.BoolOp):
+            saved = {k: set(v) for k, v in self.kinds.items()}
+            for v in e.values:
+                self.expr(v, in_index)
+                self.refine(v, isinstance(e.op, ast.And))
+            self.kinds = saved
+            return
+        if isinstance(e, ast.IfExp):
+            self.expr(e.test)
+            saved = {k: set(v) for k, v in self.kinds.items()}
+            self.refine(e.test, True)
+            self.expr(e.body, in_index)
+            self.kinds = {k: set(v) for k, v in saved.items()}
+            self.refine(e.test, False)
+            self.expr(e.orelse, in_index)
+            self.kinds = saved
+            return
+        if isinstance(e, ast.Compare):
+            operands = [e.left] + e.comparators
+            for i, op in enumerate(e.ops):
+                l, r = operands[i], operands[i + 1]
+                for a, b in ((l, r), (r, l)):
+                    if self.raw(a):
+                        self.uses += 1
+                        if isinstance(op, (ast.Lt, ast.LtE, ast.Gt, ast.GtE)):
+                            if norm(b) == '0' or self.mentions_rank(b) or (isinstance(b, ast.UnaryOp) and self.mentions_rank(b.operand)) or (isinstance(b, ast.Name) and not self.is_dim(b) and 'ndim' in b.id):
+                                continue    # sign test / range validation
+                            self.report('order-compare', e, a.id, 'a possibly negative dim is order-compared with %s before being normalised' % norm(b))
+                        elif isinstance(op, (ast.Eq, ast.NotEq)):
+                            if isinstance(b, ast.Constant) and isinstance(b.value, int) and b.value >= 0:
+                                self.report('position-compare', e, a.id, 'a raw dim is compared with the position %s' % norm(b))
+                            elif isinstance(b, ast.UnaryOp) and isinstance(b.op, ast.USub):
+                                self.report('literal-special-case', e, a.id, 'negative dims are special-cased by the literal %s instead of being normalised' % norm(b))
+                            elif isinstance(b, ast.Name):
+                                self.report('position-compare', e, a.id, 'a raw (possibly negative / tuple) dim is compared with the position variable %s' % b.id)
+                        elif isinstance(op, (ast.In, ast.NotIn)) and a is r:
+                            self.report('membership', e, a.id, 'membership of a position in a raw dim collection (negative entries never match)')
+            for o in operands:
+                self.expr(o, in_index)
+            return
+        if isinstance(e, ast.Subscript):
+            self.expr(e.value)
+            sl = e.slice
+            if isinstance(sl, ast.Slice):
+                for b in (sl.lower, sl.upper, sl.step):
+                    if b is not None:
+                        for n in ast.walk(b):
+                            if self.raw(n):
+                                self.uses += 1
+                                self.report('slice-bound', e, n.id, 'a raw dim is used in a slice bound (%s): negative values select a different range' % norm(e))
+                        self.expr(b, True)
+            else:
+                if self.is_dim(sl):
+                    self.uses += 1
+                    ks = self.kinds.get(sl.id, {'int'})
+                    if self.state[sl.id] == RAW and (ks - {'int'}):
+                        self.report('subscript-kind', e, sl.id, 'dim may be %s here and cannot subscript %s' % (sorted(ks - {'int'}), norm(e.value)))
+                self.expr(sl, True)
+            return
+        if isinstance(e, ast.BinOp):
+            if isinstance(e.op, (ast.Add, ast.Sub, ast.Mult)):
+                for a, b in ((e.left, e.right), (e.right, e.left)):
+                    if self.raw(a) and not self.mentions_rank(b):
+                        self.uses += 1
+                        self.report('index-arithmetic', e, a.id, 'arithmetic on a raw (possibly negative) dim: %s' % norm(e))
+            self.expr(e.left, in_index)
+            self.expr(e.right, in_index)
+            return
+        if isinstance(e, ast.Call):
+            d = dotted(e.func)
+            args = []
+            for i, a in enumerate(e.args):
+                args.append((i, self.state.get(a.id) if isinstance(a, ast.Name) and a.id in self.state else None, a))
+            for k in e.keywords:
+                args.append((k.arg, self.state.get(k.value.id) if isinstance(k.value, ast.Name) and k.value.id in self.state else None, k.value))
+            self.call_args.append((e, d, args))
+            if d == 'range':
+                for a in e.args:
+                    for n in ast.walk(a):
+                        if self.raw(n):
+                            self.uses += 1
+                            self.report('index-arithmetic', e, n.id, 'a raw dim bounds a range()')
+            for a in e.args:
+                self.expr(a.value if isinstance(a, ast.Starred) else a)
+            for k in e.keywords:
+                self.expr(k.value)
+            if isinstance(e.func, ast.Attribute):
+                self.expr(e.func.value)
+            return
+        if isinstance(e, (ast.ListComp, ast.GeneratorExp, ast.SetComp)):
+            saved = dict(self.state)
+            savedk = {k: set(v) for k, v in self.kinds.items()}
+            for g in e.generators:
+                self.expr(g.iter)
+                if self.is_dim(g.iter) and isinstance(g.target, ast.Name):
+                    self.state[g.target.id] = self.state[g.iter.id]
+                    self.kinds[g.target.id] = {'int'}
+                for c in g.ifs:
+                    self.expr(c)
+            self.expr(e.elt, in_index)
+            self.state, self.kinds = saved, savedk
+            return
+        for ch in ast.iter_child_nodes(e):
+            if isinstance(ch, ast.expr):
+                self.expr(ch, in_index)
+
+
+def analyse(model, f, init):
+    found = []
+    w = Walker(f, init, lambda kind, node, name, why: found.append((kind, node, name, why)))
+    for a in f.node.args.args:
+        if a.arg in init:
+            w.kinds[a.arg] = _kinds_from_annotation(a)
+    w.block(f.node.body)
+    return w, found
+
+
+def check_axis(model, R, P, scope='all'):
+    R.rule(P + '.AXIS', 'a raw (possibly negative / tuple / None) dim never reaches Python-level index arithmetic, order or position comparison, slice bounds or a subscript of the wrong kind before '
+                        'it is normalised on the path (typestate; kernels inherit the state established by their wrappers)', floor=5)
+    funcs = [f for m in SCOPE_MODULES for f in model.module_functions(m) if set(f.params) & DIM_PARAMS]
+    # pass 1: wrappers (and closures) -> state of dim arguments at kernel call sites
+    kernel_state = {}      # kernel qualname -> {param: set of states}
+    results = {}
+    for f in funcs:
+        if f.mod.modname == 'synapgrad.cpu_ops':
+            continue
+        init = {p: RAW for p in f.params if p in DIM_PARAMS}
+        w, found = analyse(model, f, init)
+        results[f.qualname] = (f, w, found)
+        final = dict(w.state)
+        sites = list(w.call_args)
+        for cl in model.nested(f):
+            wc, fc = analyse(model, cl, {n: s for n, s in final.items()})
+            results[cl.qualname] = (cl, wc, fc)
+            sites += wc.call_args
+        for call, d, args in sites:
+            callee = model.resolve(f.mod, call.func)
+            kf = model.funcs.get(callee) if callee else None
+            if kf is None or kf.mod.modname != 'synapgrad.cpu_ops':
+                continue
+            for key, st, a in args:
+                pname = kf.pos_params[key] if isinstance(key, int) and key < len(kf.pos_params) else key
+                if pname in DIM_PARAMS:
+                    s = st if st is not None else (NORM if isinstance(a, ast.Constant) and isinstance(a.value, int) and a.value >= 0 else RAW)
+                    kernel_state.setdefault(kf.qualname, {}).setdefault(pname, set()).add(s)
+    # pass 2: kernels
+    for f in funcs:
+        if f.mod.modname != 'synapgrad.cpu_ops':
+            continue
+        ks = kernel_state.get(f.qualname, {})
+        init = {}
+        for p in f.params:
+            if p in DIM_PARAMS:
+                sts = ks.get(p)
+                init[p] = NORM if sts and sts == {NORM} else RAW
+        # kernels called by other kernels with literal non-negative axes stay RAW unless every site is NORM
+        w, found = analyse(model, f, init)
+        results[f.qualname] = (f, w, found)
+    n = 0
+    for q, (f, w, found) in sorted(results.items()):
+        if scope == 'backward' and f.mod.modname == 'synapgrad.cpu_ops' and not (f.name.endswith('_backward') or f.name == 'unbroadcast'):
+            continue
+        if scope == 'forward' and f.mod.modname == 'synapgrad.cpu_ops' and f.name.endswith('_backward'):
+            continue
+        seen = set()
+        for kind, node, name, why in found:
+            key = (kind, norm(node), name)
+            if key in seen:
+                continue
+            seen.add(key)
+            R.ob(P + '.AXIS', q, '%s: %s in `%s`' % (kind, name, norm(node)[:70]), False, why, '%s:%d' % (f.mod.relpath, getattr(node, 'lineno', f.node.lineno)))
+            n += 1
+        if not found:
+            R.ob(P + '.AXIS', q, 'dims %s: %d sensitive use(s), all on normalised / legal values' % (sorted(set(f.params) & DIM_PARAMS), w.uses), True, '', f.loc)
+    R.analysed['axis_functions'] = len(results)
